@@ -433,6 +433,37 @@ def c01_c(ctx):
         ctx.check(ok, f, 'acceptance comparison', 'discrepancy <= threshold',
                   'acceptance uses `{}` instead of discrepancy <= threshold'.format(src(n)),
                   fn=f, node=n)
+        # the comparison decides acceptance exactly when a threshold was given
+        st = n
+        while not isinstance(st, ast.stmt):
+            st = st._parent
+        ex = ctx.ex(f)
+        gs = ctx.guards(f, st)
+        given = any((not pol) and match(g, pattern("self.objective['threshold'] is None"))
+                    is not None for (g, pol, _) in gs) or \
+            any(pol and match(g, pattern("self.objective['threshold'] is not None")) is not None
+                for (g, pol, _) in gs)
+        absent = any(pol and match(g, pattern("self.objective['threshold'] is None")) is not None
+                     for (g, pol, _) in gs)
+        early = any((not pol) and match(g, pattern("self.objective['threshold'] is None"))
+                    is not None for (g, pol, _) in gs)
+        ctx.check((given or early) and not absent, f,
+                  'the threshold test is applied exactly when a threshold was given',
+                  'under `threshold is not None`',
+                  'the comparison with the threshold is made under the condition that no '
+                  'threshold was given (and skipped when one was): draws above the threshold are '
+                  'accepted', fn=f, node=n)
+    # without a threshold every row of the batch is taken
+    for f in _merge_fn(ctx, cls):
+        ex = ctx.ex(f)
+        alls = [s_ for s_ in own_nodes(f.node) if isinstance(s_, ast.Assign) and
+                match(ex.raw(s_.value), pattern('slice(None, None)')) is not None]
+        for s_ in alls:
+            ok = any(pol and match(g, pattern("self.objective['threshold'] is None")) is not None
+                     for (g, pol, _) in ctx.guards(f, s_))
+            ctx.check(ok, f, 'all rows taken only when no threshold was given',
+                      'accepted = slice(None, None) under `threshold is None`',
+                      'the whole batch is accepted although a threshold was given', fn=f, node=s_)
 
 
 @obligation('C01-d', 'T5', 'the reported threshold is the largest returned discrepancy', floor=1,
@@ -761,3 +792,98 @@ def c01_h(ctx):
 def c01_i(ctx):
     from .base import zero_is_valid_obligation
     zero_is_valid_obligation(ctx, ['threshold'])
+
+
+@obligation('C01-j', 'T6 T13', 'the objective form is chosen by what was given: quantile -> budget '
+            'ceil(n_samples / quantile); a budget -> ceil(budget / batch_size) batches; only a '
+            'threshold -> the initial estimate', floor=4,
+            necessary='a branch taken under the opposite condition turns a budget run into a '
+                      'threshold run (or the reverse): another number of batches is consumed')
+def c01_j(ctx):
+    cls = ctx.cls(REJ)
+    so = ctx.own_method(cls, 'set_objective')
+    ex = ctx.ex(so)
+
+    def raw_facts(stmt):
+        out = []
+        g = cfg_of(so)
+        for (tn, pol) in g.guards_of(ctx.node(so, stmt)):
+            if tn.kind != 'test':
+                continue
+            t = ex.raw(tn.ast)
+            p = pol
+            while t[0] == 'unary' and t[1] == 'not':
+                t, p = t[2], not p
+            out.append((t, p))
+        return out
+    names = {'quantile': None, 'n_sim': None}
+    asg = [s for s in own_nodes(so.node) if isinstance(s, ast.Assign) and
+           isinstance(s.targets[0], ast.Name)]
+    # n_sim = ceil(n_samples / quantile) only when a quantile is given
+    q2n = [s for s in asg
+           if match(ex.term(s.value), pattern('ceil(n_samples / _q)')) is not None]
+    ok = bool(q2n) and any(
+        p and t in (('name', 'quantile'), ('param', 'quantile')) or
+        p and match(t, pattern('quantile is not None')) is not None or
+        (not p) and match(t, pattern('quantile is None')) is not None
+        for (t, p) in raw_facts(q2n[0]))
+    ctx.check(ok, so, 'quantile turned into a budget only when a quantile is given',
+              'if quantile: n_sim = ceil(n_samples / quantile)',
+              'the quantile budget is computed under the opposite condition', fn=so,
+              node=q2n[0] if q2n else so.node)
+    # n_batches from the budget when there is one, else the initial estimate
+    bud = [s for s in asg if match(ex.term(s.value), pattern('ceil(_n / self.batch_size)'))
+           is not None]
+    est = [s for s in asg if match(ex.term(s.value), pattern('self.max_parallel_batches'))
+           is not None]
+
+    def has_budget(stmt, want):
+        for (t, p) in raw_facts(stmt):
+            if t in (('name', 'n_sim'), ('param', 'n_sim')) and p == want:
+                return True
+            if match(t, pattern('n_sim is not None')) is not None and p == want:
+                return True
+            if match(t, pattern('n_sim is None')) is not None and p == (not want):
+                return True
+        return False
+    ctx.check(bool(bud) and has_budget(bud[0], True), so,
+              'budget batches used when a budget exists', 'if n_sim: n_batches = ceil(..)',
+              'ceil(n_sim / batch_size) is not used exactly when a budget exists', fn=so,
+              node=bud[0] if bud else so.node)
+    ctx.check(bool(est) and has_budget(est[0], False), so,
+              'initial estimate only without a budget', 'else: n_batches = max_parallel_batches',
+              'the initial estimate max_parallel_batches is not used exactly when there is no '
+              'budget (a budget run would stop after max_parallel_batches batches)', fn=so,
+              node=est[0] if est else so.node)
+    # default: nothing given -> quantile
+    dq = [s for s in asg if s.targets[0].id == 'quantile' and
+          isinstance(s.value, ast.Constant)]
+    okd = False
+    if dq:
+        facts = raw_facts(dq[0])
+        flat = []
+        for (t, p) in facts:
+            if t[0] == 'bool' and t[1] == 'and' and p:
+                flat += [(x, True) for x in t[2]]
+            else:
+                flat.append((t, p))
+        okd = all(any(p and match(t, pattern('{} is None'.format(nm))) is not None
+                      for (t, p) in flat) for nm in ('quantile', 'threshold', 'n_sim'))
+    ctx.check(okd, so, 'default objective only when nothing was given',
+              'if quantile is None and threshold is None and n_sim is None', '', fn=so,
+              node=dq[0] if dq else so.node)
+    # the sampler is restarted: state re-created, handler reset
+    st = [s for (s, t, k) in ctx.stores(so, 'self.state') if k == 'assign']
+    rs = ctx.calls(so, 'self.batches.reset()')
+    ctx.check(bool(st) and bool(rs) and cfg_of(so).must_pass([ctx.node(so, st[0])]) and
+              cfg_of(so).must_pass([ctx.node(so, _stmt1(rs[0]))]), so,
+              'state re-created and batch handler reset on every call', '',
+              'set_objective does not restart the sampler (fresh state and reset handler) on '
+              'every path', fn=so, node=st[0] if st else so.node)
+
+
+def _stmt1(node):
+    n = node
+    while n is not None and not isinstance(n, ast.stmt):
+        n = getattr(n, '_parent', None)
+    return n
